@@ -116,27 +116,28 @@ Section Generic.
   Definition sounds_on_start (arena queue : list Snd) : list Snd :=
     map snd_on_start (rev queue ++ filter (fun s => negb (snd_finished s)) arena).
 
+  (** [remove_and_add(test)] on the arena part, followed by the per-item call: items passing
+      the test are dropped, the others get [f] *)
+  Definition drain_then {X : Type} (test : X -> bool) (f : X -> X) : list X -> list X :=
+    fix go (l : list X) : list X :=
+      match l with
+      | [] => []
+      | c :: r => if test c then go r else f c :: go r
+      end.
+
   (** [Track::on_start_processing] *)
   Fixpoint on_start (t : track) : track :=
     let t1 := read_commands t in
     {| t_id := t_id t1; t_psm := t_psm t1; t_vol := t_vol t1; t_marked := t_marked t1;
        t_persist := t_persist t1; t_mirror := t_mirror t1;
        t_sounds := sounds_on_start (t_sounds t) (t_qsounds t);
-       t_subs := rev (map on_start (t_qsubs t))
-                 ++ (fix go (l : list track) : list track :=
-                       match l with
-                       | [] => []
-                       | c :: r => if should_be_removed c then go r else on_start c :: go r
-                       end) (t_subs t);
+       t_subs := rev (map on_start (t_qsubs t)) ++ drain_then should_be_removed on_start (t_subs t);
        t_effects := map eff_on_start (t_effects t);
        t_qsounds := []; t_qsubs := []; t_cmds := t_cmds t1 |}.
 
-  (** the arena part of [on_start], named *)
-  Fixpoint subs_on_start (l : list track) : list track :=
-    match l with
-    | [] => []
-    | c :: r => if should_be_removed c then subs_on_start r else on_start c :: subs_on_start r
-    end.
+  (** [sub_tracks.remove_and_add(should_be_removed)] then every sub-track's [on_start_processing] *)
+  Definition subs_on_start (arena queue : list track) : list track :=
+    rev (map on_start queue) ++ drain_then should_be_removed on_start arena.
 
   (** [*summed_out += x] over the zipped slices *)
   Fixpoint add_frames (out src : list A) : list A :=
@@ -268,7 +269,7 @@ Section Generic.
   Definition mixer_new : mixer := {| mx_subs := []; mx_qsubs := [] |}.
   (** [Mixer::on_start_processing] (sub-track part) *)
   Definition mixer_on_start (m : mixer) : mixer :=
-    {| mx_subs := rev (map on_start (mx_qsubs m)) ++ subs_on_start (mx_subs m); mx_qsubs := [] |}.
+    {| mx_subs := subs_on_start (mx_subs m) (mx_qsubs m); mx_qsubs := [] |}.
   (** [Mixer::process] (sub-track part): the sum of the top-level tracks *)
   Definition mixer_process (m : mixer) (len : nat) (dt : T) (i : info T) : outcome (mixer * list A) :=
     let! (subs, out) := subs_process (mx_subs m) len dt i (repeat azero len) in
